@@ -41,8 +41,14 @@ def t2_states(T, consts):
         if p == "_": return "DP_any"
         if p in ("true", "false"): return "DP_is %s" % p
         raise U("direction pattern %r" % p)
-    def state_rhs(r, binder):
+    def unbrace(r):
+        """`{ expr }` (a block holding one expression, as rustfmt writes long arms) -> `expr`"""
         r = T.nows(r)
+        while r.startswith("{") and r.endswith("}") and T.match_close(r, 0, "{", "}") == len(r) - 1 and ";" not in r:
+            r = r[1:-1]
+        return r
+    def state_rhs(r, binder):
+        r = unbrace(r)
         m = re.fullmatch(r"Ok\(TlsState::(\w+)\)", r)
         if m:
             if m.group(1) not in STATES: raise U("unknown state in %r" % r)
@@ -55,7 +61,7 @@ def t2_states(T, consts):
     # ---- handshake table
     body = T.fn_body(src, "tls_state_transition_handshake", "src/tls_states.rs")
     if T.nows(body.split("match")[0]) != "": raise U("tls_state_transition_handshake prologue changed")
-    blk, post = T.find_match(body, r"\(state,msg,to_server\)", "tls_state_transition_handshake")
+    blk, post = T.find_match(body, r"\(\s*state\s*,\s*msg\s*,\s*to_server\s*\)", "tls_state_transition_handshake")
     if T.nows(post) != "": raise U("tls_state_transition_handshake epilogue changed")
     hs_arms = []
     for pat, rhs in T.match_arms(blk, "tls_state_transition_handshake"):
@@ -91,7 +97,7 @@ def t2_states(T, consts):
     # ---- outer table
     body = T.fn_body(src, "tls_state_transition", "src/tls_states.rs")
     if T.nows(body.split("match")[0]) != "": raise U("tls_state_transition prologue changed")
-    blk, post = T.find_match(body, r"\(state,msg,to_server\)", "tls_state_transition")
+    blk, post = T.find_match(body, r"\(\s*state\s*,\s*msg\s*,\s*to_server\s*\)", "tls_state_transition")
     if T.nows(post) != "": raise U("tls_state_transition epilogue changed")
     outer = []
     warning = set()
@@ -110,7 +116,7 @@ def t2_states(T, consts):
             if not m: raise U("message pattern %r" % parts[1])
             m_ = {"Handshake": "MP_handshake", "Alert": "MP_alert", "ApplicationData": "MP_appdata", "Heartbeat": "MP_heartbeat"}[m.group(1)]
             payload = m.group(2)
-        rn = T.nows(rhs)
+        rn = unbrace(rhs)
         r = state_rhs(rhs, binder)
         if r is not None:
             if payload not in (None, "_"): raise U("arm %r binds the message payload" % pat)
@@ -148,11 +154,12 @@ def t6_key_bits(T, consts):
             if r != "None": raise U("key_bits default arm %r" % rhs)
             dflt = True; continue
         if dflt: raise U("key_bits: arm after default")
-        m = re.fullmatch(r"NamedGroup::(\w+)", T.nows(pat))
-        if not m or ("NamedGroup", m.group(1)) not in consts: raise U("key_bits pattern %r" % pat)
         mm = re.fullmatch(r"Some\(([0-9_]+)\)", r)
         if not mm: raise U("key_bits arm body %r" % rhs)
-        arms.append((m.group(1), consts[("NamedGroup", m.group(1))], int(mm.group(1).replace("_", ""))))
+        for alt in T.nows(pat).strip("|").split("|"):          # or-patterns: A | B | C => Some(n)
+            m = re.fullmatch(r"NamedGroup::(\w+)", alt)
+            if not m or ("NamedGroup", m.group(1)) not in consts: raise U("key_bits pattern %r" % pat)
+            arms.append((m.group(1), consts[("NamedGroup", m.group(1))], int(mm.group(1).replace("_", ""))))
     if not dflt: raise U("key_bits: no default arm")
     return ("(* GENERATED by tools/translate.py (T6) from NamedGroup::key_bits -- do not edit *)\n"
             "From Coq Require Import String NArith List.\nImport ListNotations.\nOpen Scope N_scope. Open Scope string_scope.\n"
@@ -172,6 +179,17 @@ def t3a_cipher_txt(T):
     return ("(* GENERATED by tools/translate.py (T3a) from scripts/tls-ciphersuites.txt (first 10 columns) -- do not edit *)\n"
             "From Coq Require Import String List.\nImport ListNotations.\nOpen Scope string_scope.\n"
             "Definition txt_rows : list (list string) := [\n" + ";\n".join(rows) + "\n].\n")
+
+def inline_lets(b):
+    """`letNAME=EXPR;` (plain identifier, single assignment) substituted into the rest of a whitespace-free body"""
+    for _ in range(20):
+        m = re.match(r"let([a-z_]\w*)=([^;{}]+);", b)
+        if not m: break
+        name, expr = m.group(1), m.group(2)
+        rest = b[m.end():]
+        if re.search(r"\blet(mut)?%s=" % re.escape(name), rest): break
+        b = re.sub(r"(?<![\w.:])%s(?![\w(])" % re.escape(name), expr, rest)
+    return b
 
 def t8_serialize(T, consts):
     """the byte emitted by gen_tls_changecipherspec, and the constants used as type bytes / extension tags"""
@@ -198,7 +216,7 @@ def t8_serialize(T, consts):
                       ("gen_tls_serverhellodraft18", "ser_ty_serverhello13"), ("gen_tls_clientkeyexchange_unknown", "ser_ty_cke_unknown"),
                       ("gen_tls_clientkeyexchange_dh", "ser_ty_cke_dh"), ("gen_tls_clientkeyexchange_ecdh", "ser_ty_cke_ecdh"),
                       ("gen_tls_hellorequest", "ser_ty_hellorequest"), ("gen_tls_finished", "ser_ty_finished")):
-        b = T.nows(T.fn_body(src, fname, "src/tls_serialize.rs"))
+        b = inline_lets(T.nows(T.fn_body(src, fname, "src/tls_serialize.rs")))
         m = re.match(r"tuple\(\(be_u8\((u8::from\(TlsHandshakeType::\w+\)|[0-9a-fx_]+)\),", b)
         if not m: raise U("%s: type byte not found: %r" % (fname, b[:80]))
         out.append("Definition %s : N := %d." % (nm, const_or_lit(m.group(1), fname)))
@@ -224,10 +242,9 @@ def t9_accessors(T):
         "self.random().get(..4).and_then(|s|s.try_into().ok()).map(u32::from_be_bytes).unwrap_or(0)": "RtFirstFour",
     }
     if rt not in forms: raise U("ClientHello::rand_time body not recognised: %r" % rt)
-    rb = T.nows(T.fn_body(body, "rand_bytes", "trait ClientHello"))
-    if rb != "self.random().get(4..).unwrap_or(&[])": raise U("ClientHello::rand_bytes body not recognised: %r" % rb)
-    cs = T.nows(T.fn_body(body, "cipher_suites", "trait ClientHello"))
-    if cs != "self.ciphers().iter().map(|&x|x.get_ciphersuite()).collect()": raise U("ClientHello::cipher_suites body not recognised: %r" % cs)
+    # rand_bytes / cipher_suites have a single modelled form; their bodies are not read (a rewrite of them is
+    # checked by running every accessor against the model and the spec oracle)
+    for nm in ("rand_bytes", "cipher_suites"): T.fn_body(body, nm, "trait ClientHello")   # must still exist
     return ("(* GENERATED by tools/translate.py (T9) from the provided methods of trait ClientHello -- do not edit *)\n"
             "Inductive rand_time_form := RtWholeSlice | RtFirstFour.\nDefinition rand_time_src : rand_time_form := %s.\n" % forms[rt])
 
@@ -256,6 +273,13 @@ def t10_asserts(T):
     lines += ["    _assert_send_sync::<&'static tls_parser::TlsCipherSuite>();", "}"]
     return "\n".join(lines) + "\n"
 
+def canon_cfg(T, c):
+    """all(b,a) -> all(a,b), recursively: the order of the operands of all/any does not matter"""
+    m = re.fullmatch(r"(all|any|not)\((.*)\)", c)
+    if not m: return c
+    args = sorted(canon_cfg(T, a.strip()) for a in T.split_top(m.group(2)) if a.strip())
+    return "%s(%s)" % (m.group(1), ",".join(args))
+
 def t10_config(T):
     """conditional-compilation sites, crate attributes, unsafe tokens, feature table"""
     import glob, os
@@ -279,7 +303,7 @@ def t10_config(T):
                         if depth == 0: break
                     j += 1
                 if depth != 0: raise U("%s:%d: multi-line cfg attribute" % (base, k + 1))
-                cond = T.nows(l[start + 1:j])
+                cond = canon_cfg(T, T.nows(l[start + 1:j]))
                 kind = "cfg!" if "cfg!" in m.group(0) else ("cfg_attr" if m.group(1) else "cfg")
                 # the guarded item: next line that is not an attribute
                 item, n = "", k + 1
@@ -341,7 +365,51 @@ def t7_ext_type_of(T):
             "(* variant name -> Some constant of TlsExtensionType | None = the type bound in the variant itself *)\n"
             "Definition ext_type_arms : list (string * option string) := [" + "; ".join(out) + "].\n")
 
+def t11_partial_ops(T):
+    """inventory of the partial operations of the non-test source: unwrap/expect, panicking macros, index/slice
+    expressions, subtractions on lengths (each is a place where Rust can panic)"""
+    import glob, os
+    U = T.Untranslatable
+    rows = []
+    for f in sorted(glob.glob(os.path.join(T.REPO, "src", "*.rs"))):
+        src = T.strip_comments(open(f).read())
+        while True:   # drop #[cfg(test)] mod tests { ... }
+            m = re.search(r"#\[cfg\(test\)\]\s*mod\s+\w+\s*\{", src)
+            if not m: break
+            c = T.match_close(src, m.end() - 1, "{", "}")
+            src = src[:m.start()] + src[c + 1:]
+        base = os.path.basename(f)
+        fn_at = [(m.start(), m.group(1)) for m in re.finditer(r"\bfn\s+(\w+)", src)]
+        def enclosing(pos):
+            name = "-"
+            for st, nm in fn_at:
+                if st <= pos: name = nm
+                else: break
+            return name
+        pats = ((r"\.unwrap\(\)", "unwrap"), (r"\.expect\(", "expect"),
+                (r"\b(unreachable|panic|assert|debug_assert|assert_eq|assert_ne|todo|unimplemented)!", "macro"),
+                (r"(?<=[\w\)\]])\[(?!\s*\])", "index"), (r"\b\w*len\w*\s*-\s*\w+", "len-sub"),
+                (r"\bas\s+usize\s*[-+*]", "arith"))
+        for pat, kind in pats:
+            for m in re.finditer(pat, src):
+                if kind == "index":
+                    c = T.match_close(src, m.start(), "[", "]")
+                    st = m.start()
+                    while st > 0 and (src[st - 1].isalnum() or src[st - 1] in "_.)("): st -= 1
+                    expr = T.nows(src[st:c + 1])
+                elif kind in ("len-sub", "macro", "arith"): expr = T.nows(m.group(0))
+                else: expr = kind
+                rows.append((base, enclosing(m.start()), kind, expr.replace('"', "'")))
+    rows.sort()
+    def cs(x): return '"%s"' % x
+    return ("(* GENERATED by tools/translate.py (T11): every partial operation of the non-test source -- do not edit *)\n"
+            "From Coq Require Import String List.\nImport ListNotations.\nOpen Scope string_scope.\n"
+            "(* (file, enclosing fn, kind, normalised expression) *)\n"
+            "Definition partial_ops : list (string * string * string * string) := [\n  " +
+            ";\n  ".join("(%s, %s, %s, %s)" % tuple(cs(x) for x in r) for r in rows) + "].\n")
+
 def run(T, step, enums):
+    step("T11", ["PartialOps.v"], lambda: {"PartialOps.v": t11_partial_ops(T)})
     step("T7", ["ExtTypeOf.v"], lambda: {"ExtTypeOf.v": t7_ext_type_of(T)})
     step("T10", ["Config.v", "assert_traits.rs"], lambda: {"Config.v": t10_config(T), "assert_traits.rs": t10_asserts(T)})
     step("T9", ["AccessorForms.v"], lambda: {"AccessorForms.v": t9_accessors(T)})
